@@ -479,12 +479,12 @@ CHECKS.update({
     "C09": {"fn": props2.check_C09, "engine": True},
     "C10": {"fn": props2.check_C10, "engine": True, "trace": True},
     "C11": {"fn": props2.check_C11},
-    "C12": {"fn": props2.check_C12},
+    "C12": {"fn": props2.check_C12, "engine": True},
     "C14": {"fn": props2.check_C14},
     "C15": {"fn": props2.check_C15, "engine": True},
     "C16": {"fn": props2.check_C16, "engine": True, "trace": True},
     "C17": {"fn": props2.check_C17, "engine": True, "trace": True},
-    "C18": {"fn": props2.check_C18, "engine": True},
+    "C18": {"fn": props2.check_C18, "engine": True, "trace": True},
 })
 
 # =====================================================================================
